@@ -29,7 +29,7 @@ BOUNDS = {
 ASSUMPTIONS = [
   "MuJoCo C 3.13 (python bindings) is the reference, trusted only where its dense and sparse Jacobian modes agree",
   "rows whose Jacobian is identically zero (max|J| < 1e-6 on a side) are removed from both sides before rows/counts are compared",
-  "tolerance classes: J f32 (2e-5; contact rows 1e-4 because they multiply two f32-class collision outputs), pos/margin/D/aref/frictionloss/vel f32dyn (2e-4), each relative to 1+max|reference| of the field over the rows of one constraint kind",
+  "tolerance classes: J f32 (2e-5; contact rows: 1e-4 + 2*(measured frame and position difference of the matched contacts), and their vel/pos/aref allowances propagate the measured contact geometry difference: rows are compared given the contacts, contact geometry is C04), pos/margin/D/aref/frictionloss/vel f32dyn (2e-4), each relative to 1+max|reference| of the field over the rows of one constraint kind",
   "boundary rule: a limit/contact row whose |pos - margin| < 1e-5 may be present on either side",
   "contacts only between closed-form primitive pairs (plane/sphere/capsule/box vs sphere/capsule); real values from curated alphabets (VERIF_SEED mod 4)",
   "data comes from make_data (fresh) followed by a single forward(); CPU backend only",
@@ -138,7 +138,7 @@ def _rows_equal(ra, a, rb, b, tolJ=2e-4):
   return np.max(np.abs(ra["J"][a] - rb["J"][b])) <= tolJ * (1 + np.max(np.abs(rb["J"][b])))
 
 
-def compare_rows(c, pre, mjm, rows_w, keep_w, rows_m, keep_m, idmap, tols=None, self_check=False):
+def compare_rows(c, pre, mjm, rows_w, keep_w, rows_m, keep_m, idmap, tols=None, geom=None):
   """Compare two row sets as multisets keyed by (type,id) then order / J row.  Returns number of rows compared."""
   gw, gm = _group(rows_w, keep_w, idmap), _group(rows_m, keep_m)
   pairs = {}  # kind -> list of (rw, rm)
@@ -152,7 +152,8 @@ def compare_rows(c, pre, mjm, rows_w, keep_w, rows_m, keep_m, idmap, tols=None, 
       if len(lw2) == len(lm2):
         lw, lm = lw2, lm2
       else:
-        c.fail(f"rowcount:{kind}", f"{pre}{kind} id={key[1]}: {len(lw)} rows vs reference {len(lm)}")
+        both = ":both_sides_active" if kind.startswith("limit") and len(lm) == 2 and len(lw) == 1 else ""
+        c.fail(f"rowcount:{kind}{both}", f"{pre}{kind} id={key[1]}: {len(lw)} rows vs reference {len(lm)}")
         continue
     if not lw:
       continue
@@ -173,12 +174,24 @@ def compare_rows(c, pre, mjm, rows_w, keep_w, rows_m, keep_m, idmap, tols=None, 
     n += len(pr)
     for f, tol in FIELDS:
       t = (tols or {}).get(f, tol)
-      if f == "J" and kind.startswith("contact") and tols is None:
-        # a contact row is (frame row) x (point Jacobian at the contact position): a product of two quantities that are
-        # themselves only f32-class accurate (collision output, <=2e-5), summed over up to two friction terms; measured
-        # max 4.3e-5 on the unchanged tree.  Index/sign defects give O(0.1).
-        t = 1e-4
-      c.close(f"{pre}{f}[{kind}]", rows_w[f][ia], rows_m[f][ib], t, vkey=f"{f}:{kind}")
+      atol = 0.0
+      if kind.startswith("contact") and tols is None:
+        # Rows are compared *given the contacts*: the contact geometry itself (frame, position, distance; C04's subject,
+        # accepted there to 2e-5) differs between the engines by the measured dF, dp, dd of the matched contacts, and a
+        # contact row is (frame row) x (point Jacobian at the contact position), its reference acceleration
+        # -K*I*dist - B*vel.  The measured geometry difference is propagated; index/sign defects give O(0.1).
+        dF, dp, dd, v1 = (geom or (0.0, 0.0, 0.0, 0.0))
+        tolJ = 1e-4 + 2.0 * (dF + dp)
+        if f == "J":
+          t, atol = 0.0, tolJ * (1 + float(np.max(np.abs(rows_m["J"][ib]))))
+        elif f == "vel":
+          atol = tolJ * v1
+        elif f == "pos":
+          atol = dd
+        elif f == "aref" and "KBIP" in rows_m:
+          kb = rows_m["KBIP"][ib]
+          atol = float(np.max(2.0 * kb[:, 0] * kb[:, 2] * dd + kb[:, 1] * tolJ * v1))
+      c.close(f"{pre}{f}[{kind}]", rows_w[f][ia], rows_m[f][ib], t, vkey=f"{f}:{kind}", atol=atol)
   return n
 
 
@@ -265,6 +278,7 @@ def execute(scn):
       for qpos, qvel in states:
         mjd = mj_reference(mjm, qpos, qvel, info["eq_off"])
         nefc, rows = util.mj_efc_dense(mjm, mjd)
+        rows["KBIP"] = np.array(mjd.efc_KBIP).reshape(-1, 4)
         refs[jac].append(dict(mjd=mjd, nefc=nefc, rows=rows, keep=_strip(rows, nefc), con=util.mj_contacts(mjd), warn=util.mj_warnings(mjd)))
     trusted = []
     for w in range(2):
@@ -312,9 +326,14 @@ def execute(scn):
             c.fail("contacts:set", f"{pre}{len(cons)} contacts vs reference {len(cm)} (matched {len(idmap)})")
             continue
           frames_ok = True
+          dF = dp = dd = 0.0
           for cw in cons:
             b = cm[idmap[cw["index"]]]
-            if np.max(np.abs(cw["frame"] - b["frame"])) > 1e-4:
+            dF = max(dF, float(np.max(np.abs(cw["frame"] - b["frame"]))))
+            dp = max(dp, float(np.max(np.abs(cw["pos"] - b["pos"]))))
+            dd = max(dd, abs(float(cw["dist"]) - float(b["dist"])))
+            # a different tangent-basis convention shows as O(0.1..1); float32 geometry as <= 1e-3
+            if np.max(np.abs(cw["frame"] - b["frame"])) > 1e-3:
               # rows of a contact are only comparable if both engines use the same contact frame (C04's subject)
               c.fail("contacts:frame", f"{pre}contact geoms {b['geom'].tolist()}: frame {np.round(cw['frame'], 4).tolist()} vs reference {np.round(b['frame'], 4).tolist()}")
               frames_ok = False
@@ -325,12 +344,15 @@ def execute(scn):
             continue
           sc = util.Cmp()
           keep = _strip(rows, nefc)
-          nrows += compare_rows(sc, pre, mjm, rows, keep, ref["rows"], ref["keep"], idmap)
+          geom = (dF, dp, dd, float(np.sum(np.abs(states[w][1]))))
+          nrows += compare_rows(sc, pre, mjm, rows, keep, ref["rows"], ref["keep"], idmap, geom=geom)
           # counts after the same removal
           for nm, lo, hi in (("ne", 0, 0), ("nf", 1, 2), ("nl", 3, 4), ("nc", 5, 7)):
             cw_ = sum(1 for r in keep if lo <= rows["type"][r] <= hi and not _boundary(rows, r))
             cm_ = sum(1 for r in ref["keep"] if lo <= ref["rows"]["type"][r] <= hi and not _boundary(ref["rows"], r))
-            sc.true(f"{pre}{nm}", cw_ == cm_, f"{cw_} vs reference {cm_} (rows with non-zero Jacobian)", vkey=f"count:{nm}")
+            nboth = sum(1 for v in sc.violations if v["vkey"].endswith(":both_sides_active")) if nm == "nl" else 0
+            sfx = ":both_sides_active" if nboth and cm_ - cw_ == nboth else ""
+            sc.true(f"{pre}{nm}", cw_ == cm_, f"{cw_} vs reference {cm_} (rows with non-zero Jacobian)", vkey=f"count:{nm}{sfx}")
           pend.append((w, sc))
         # triage of reference-acceleration mismatches on connect/weld rows: does a second forward() on the same Data
         # (com_vel now evaluated at this state) repair them?  Then the first forward() used stale cvel/cdof_dot.
@@ -343,7 +365,7 @@ def execute(scn):
             sc2 = util.Cmp()
             ref = refs[jac][w]
             idmap = _match_contacts(util.mjw_contacts(d, w), ref["con"])
-            compare_rows(sc2, "", mjm, rows, _strip(rows, nefc), ref["rows"], ref["keep"], idmap)
+            compare_rows(sc2, "", mjm, rows, _strip(rows, nefc), ref["rows"], ref["keep"], idmap, geom=(1e-3, 1e-3, 1e-4, 10.0))
             repaired[w] = not any(v["vkey"].startswith("aref:") for v in sc2.violations)
         for w, sc in pend:
           for v in sc.violations:
